@@ -2,7 +2,7 @@
 # (VERIF_DIR / REPO_DIR select a scratch copy of the harness and a scratch worktree instead of /verif and /repo)
 # Runs the quick checks against every seeded change under /verif/seeded and reports which checks
 # raise a VIOLATION. Usage: tools/run_seeded.sh [name ...] ; env CHECKS="C01 C02" restricts the checks,
-# TIER=thorough selects the tier. /repo is restored afterwards (git checkout -- .).
+# TIER=thorough selects the tier; OWN_ONLY=1 runs only the check of the property the change was written against. /repo is restored afterwards (git checkout -- .).
 V=${VERIF_DIR:-/verif}; R=${REPO_DIR:-/repo}
 cd $V || exit 2
 export VERIF_EVIDENCE_DIR=$V/scratch/seeded_evidence; mkdir -p $VERIF_EVIDENCE_DIR
@@ -20,6 +20,7 @@ for n in $NAMES; do
   # CHECKS=all runs all fourteen
   own=$(python3 -c "import json;m=json.load(open('$d/meta.json'));print(' '.join(sorted(set([m['property']]+m['detected_by_quick_checks']))))" 2>/dev/null)
   cs=${CHECKS:-$own}
+  [ -n "$OWN_ONLY" ] && cs=$prop
   [ "$cs" = "all" ] && cs="C01 C02 C03 C04 C05 C06 C07 C08 C09 C10 C11 C12 C13 C14"
   git -C $R checkout -- . && git -C $R apply "$PWD/$d/patch.diff" || { echo "$n: patch does not apply"; continue; }
   hits=""
